@@ -961,6 +961,50 @@ def run(only=None):
                                 obs=lambda r: r.to01() if hasattr(r, "to01") else repr(r))
         s.done()
 
+    if want("custom_configurations"):
+        import zlib as _zlib
+        import binascii as _binascii
+        from okdmr.dmrlib.etsi.crc.crc import BitCrcConfiguration as _Cfg
+        s = rep.sub("custom_configurations",
+                    "the engine with configurations other than the five ETSI ones, against two references of the standard library: reflected "
+                    "CRC-32 (input and output octets reversed, init / final xor all-ones) == zlib.crc32, CRC-16 with polynomial 0x1021 and init 0 == "
+                    "binascii.crc_hqx; bitwise and table mode, all octet strings of length <= 1, weight <= 2 strings of 1..8 octets and seed strings; "
+                    "the caller's bitarray is unchanged and a second call on the same bitarray gives the same CRC")
+        cfgs = {
+            "crc32_reflected": (_Cfg(width_bits=32, polynomial=0x04C11DB7, init_value=0xFFFFFFFF, final_xor_value=0xFFFFFFFF, reverse_input_bytes=True, reverse_output_bytes=True),
+                                lambda d: _zlib.crc32(d) & 0xFFFFFFFF, 32),
+            "crc16_xmodem": (_Cfg(width_bits=16, polynomial=0x1021, init_value=0), lambda d: _binascii.crc_hqx(d, 0), 16),
+        }
+        datas = [b""] + [bytes([v]) for v in range(256)]
+        for n_ in (2, 3, 4, 8):
+            for sbits in spaces.small_scope_messages(8 * n_, 2 if n_ <= 4 else 1):
+                datas.append(int(sbits, 2).to_bytes(n_, "big"))
+        datas += [env.det_bytes(f"c05-custom-{i}", 5 + 7 * i) for i in range(6)]
+        for cname, (cfg, ref, w_) in cfgs.items():
+            for mode in MODES:
+                calc = BitCrcCalculator(cfg, table_based=(mode == "table"))
+                for d_ in datas:
+                    case = {"configuration": cname, "mode": mode, "data": d_.hex()}
+                    try:
+                        b_ = bitarray()
+                        b_.frombytes(d_)
+                        snap = b_.to01()
+                        r1 = to_int(calc.calculate_checksum(b_))
+                        if b_.to01() != snap:
+                            s.violation(f"engine_modifies_the_callers_bitarray:{cname}", case, "the bitarray handed to calculate_checksum is different after the call")
+                        r2 = to_int(calc.calculate_checksum(b_))
+                        if r1 != ref(d_):
+                            s.violation(f"engine_differs_from_the_standard_library_reference:{cname}:{mode}", {**case, "got": hex(r1), "want": hex(ref(d_))})
+                        elif r2 != r1:
+                            s.violation(f"second_call_on_the_same_bitarray_differs:{cname}:{mode}", {**case, "first": hex(r1), "second": hex(r2)})
+                        if calc.verify_checksum(b_, ref(d_)) is not True or calc.verify_checksum(b_, ref(d_) ^ 1) is not False:
+                            s.violation(f"verify_wrong_verdict:{cname}:{mode}", case)
+                    except Exception as e:  # noqa: BLE001
+                        s.violation(f"exception_custom_configuration:{cname}:" + exc_sig(e), case, repr(e))
+                    s.case(nontrivial=True, calls=4, outcome=(cname, mode), sample=case if len(s.samples) < 1 else None)
+        s.declared = len(cfgs) * len(MODES) * len(datas)
+        s.done()
+
     if want("extreme_crc_values"):
         s = rep.sub("extreme_crc_values",
                     "messages constructed (GF(2) linear solve on the reference) so that the defined CRC is exactly all-zeros / all-ones: "
